@@ -95,6 +95,39 @@ def run(ctx):
                 else:
                     lines.append(wf.sd_line_uhf(plain, np.array(wd["mo_coeff"][0]), np.array(wd["mo_coeff"][1]), np.array(W[0])[i], np.array(W[1])[i]))
                 refs.append((kind, complex(ov_q[i] * nf[i]), complex(e_q[i])))
+    # ---- restricted container, open shell: the down determinant is the leading n_dn columns of the same matrix, so
+    # re-orthonormalisation must keep the span of every leading block of columns (what a triangular factor does)
+    for kind, norb, ne in [("uhf", 4, (2, 1)), ("uhf", 4, (3, 2)), ("multislater", 4, (3, 1)), ("UCISD", 3, (2, 1))]:
+        if not trials.supported(kind, norb, ne):
+            continue
+        try:
+            trial, wd, desc = trials.make(kind, rng, norb, ne, **wf.make_opts(kind, rng))
+            ham, plain = trials.make_ham(rng, norb, nchol=2)
+            ham = trial._build_measurement_intermediates(dict(ham), wd)
+            W = jnp.array([wf.complex_walker(rng, norb, ne[0]) for _ in range(nbatch)])
+            prop = propagation.propagator_restricted(n_walkers=nbatch)
+            Q = prop.orthonormalize_walkers({"walkers": W})["walkers"]
+            try:
+                e_w, e_q = np.array(trial.calc_energy(W, ham, wd)), np.array(trial.calc_energy(Q, ham, wd))
+                f_w, f_q = np.array(trial.calc_force_bias(W, ham, wd)), np.array(trial.calc_force_bias(Q, ham, wd))
+            except NotImplementedError:
+                continue
+            evals += 1
+            dist[kind + " (restricted open shell)"] = dist.get(kind + " (restricted open shell)", 0) + 1
+            tol = 1e-9 if kind == "uhf" else 2e-5
+            for i in range(nbatch):
+                w, q = np.array(W)[i][:, :ne[1]], np.array(Q)[i][:, :ne[1]]
+                if np.abs(q @ (q.conj().T @ w) - w).max() > 1e-9:
+                    spec_fail.append(("orthonormalize_walkers (restricted container, open shell)", "the leading n_dn columns (the down determinant) span the same space after re-orthonormalisation",
+                                      {"kind": kind, "norb": norb, "nelec": ne, "residual": float(np.abs(q @ (q.conj().T @ w) - w).max())}))
+                    break
+            if not all(wf.close(a, b, tol, tol) for a, b in zip(e_w, e_q)):
+                spec_fail.append((kind + " (restricted container, open shell)", "local energy unchanged by re-orthonormalisation",
+                                  {"norb": norb, "nelec": ne, "before": [str(x) for x in e_w], "after": [str(x) for x in e_q]}))
+            if not all(wf.close(a, b, 1e-7, 1e-7) for a, b in zip(f_w.ravel(), f_q.ravel())):
+                spec_fail.append((kind + " (restricted container, open shell)", "force bias unchanged by re-orthonormalisation", {"norb": norb, "nelec": ne}))
+        except Exception as ex:
+            spec_fail.append((kind, "restricted open-shell re-orthonormalisation runs", {"error": repr(ex)[:300]}))
     mism = []
     try:
         model = common.lean_run("SD", lines) if lines else []
